@@ -263,6 +263,8 @@ func runC10(c *vh.Case, spec c10Spec) {
 	}
 	var streams sync.WaitGroup
 	standCancel := make([]context.CancelFunc, spec.Sessions)
+	lastStandID := make([]string, spec.Sessions)
+	var lastStandMu sync.Mutex
 	if stateful {
 		for i := 0; i < spec.Sessions; i++ {
 			st, rh, _, err := ip.Do(ctx, "POST", "http://example.test/mcp", hdr(""), []byte(`{"jsonrpc":"2.0","id":"init","method":"initialize","params":{"protocolVersion":"2025-06-18","capabilities":{"roots":{}},"clientInfo":{"name":"raw","version":"0"}}}`))
@@ -294,7 +296,14 @@ func runC10(c *vh.Case, spec c10Spec) {
 			streams.Add(1)
 			go func() {
 				defer streams.Done()
-				vhm.ReadSSE(resp.Body, func(e vhm.SSEvent) { absorb(e.Data, i, "standalone", 0, 0, sids[i]) })
+				vhm.ReadSSE(resp.Body, func(e vhm.SSEvent) {
+					if e.ID != "" {
+						lastStandMu.Lock()
+						lastStandID[i] = e.ID
+						lastStandMu.Unlock()
+					}
+					absorb(e.Data, i, "standalone", 0, 0, sids[i])
+				})
 				resp.Body.Close()
 			}()
 		}
@@ -423,6 +432,48 @@ func runC10(c *vh.Case, spec c10Spec) {
 	}
 	wg.Wait()
 	time.Sleep(ms(30))
+	if spec.Store && stateful {
+		// Every session drops its standalone stream and resumes it after the last event it saw:
+		// whatever is replayed must be its own.
+		for _, cancel := range standCancel {
+			if cancel != nil {
+				cancel()
+			}
+		}
+		streams.Wait()
+		for i := range standCancel {
+			if standCancel[i] == nil {
+				continue
+			}
+			gctx, cancel := context.WithCancel(ctx)
+			standCancel[i] = cancel
+			req, _ := http.NewRequestWithContext(gctx, "GET", "http://example.test/mcp", nil)
+			for k, v := range hdr(sids[i]) {
+				req.Header.Set(k, v)
+			}
+			req.Header.Set("Accept", "text/event-stream")
+			lastStandMu.Lock()
+			if id := lastStandID[i]; id != "" {
+				req.Header.Set("Last-Event-ID", id)
+			}
+			lastStandMu.Unlock()
+			resp, err := ip.RoundTrip(req)
+			if err != nil || resp.StatusCode != 200 {
+				if resp != nil {
+					resp.Body.Close()
+				}
+				continue
+			}
+			i := i
+			streams.Add(1)
+			go func() {
+				defer streams.Done()
+				vhm.ReadSSE(resp.Body, func(e vhm.SSEvent) { absorb(e.Data, i, "standalone", 0, 0, sids[i]) })
+				resp.Body.Close()
+			}()
+		}
+		time.Sleep(ms(10))
+	}
 	for i, cancel := range standCancel {
 		if cancel != nil {
 			cancel()
